@@ -70,6 +70,15 @@ class Report:
         self.samples = []
         self.bounds = [ob.bound] if ob.bound else []
         self.nontrivial = set()
+        self.replay_specs = {}      # distinct replay specifications attached to DISCHARGED goals (self-test of the replayers)
+
+    def replay_seen(self, replay):
+        try:
+            k = json.dumps(replay, sort_keys=True)
+        except Exception:
+            return
+        if k not in self.replay_specs and len(self.replay_specs) < 6:
+            self.replay_specs[k] = replay
 
     # what was encoded
     def encoded(self, *fns):
@@ -123,7 +132,8 @@ class Report:
                     inconclusive=self.inconclusive, notes=self.notes, paths=self.paths,
                     paths_infeasible=self.paths_infeasible, assumptions=self.assumptions,
                     trusted=self.trusted, stubs=self.stubs, samples=self.samples, bounds=self.bounds,
-                    nontrivial=sorted(self.nontrivial), stats=stats, wall_s=round(wall, 3))
+                    nontrivial=sorted(self.nontrivial), stats=stats, wall_s=round(wall, 3),
+                    replay_specs=list(self.replay_specs.values()))
 
 
 def load_checks(prop):
@@ -340,6 +350,29 @@ def run_property(prop, tier, jobs=None, only=None):
                 harness_errors.append("%s: counterexample did not reproduce on the real code (rc=%s): %s | %s"
                                       % (o.name, rc, fl["what"], outp[-300:]))
     inconclusive = [(o.name, i) for o in obs for i in results[o.name]["inconclusive"]]
+
+    # self-test of the replayers (SYMX_SELFTEST_REPLAYS=1): a replay specification attached to a goal that was DISCHARGED must
+    # not "reproduce" anything on this tree, otherwise the replayer would confirm any alarm
+    if os.environ.get("SYMX_SELFTEST_REPLAYS"):
+        done = set()
+        for o in obs:
+            if results[o.name]["failed"]:
+                continue
+            for rp in results[o.name].get("replay_specs", []):
+                blob = json.dumps({"property": prop, "obligation": o.name, "what": "replayer self-test", "replay": rp}, sort_keys=True)
+                if blob in done:
+                    continue
+                done.add(blob)
+                k0 = [k for k in known if k.get("property") == prop and k.get("replay_kind") == rp.get("kind")]
+                path = os.path.join(VERIF, ".work", "selftest-%s-%s.json" % (prop, hashlib.sha1(blob.encode()).hexdigest()[:10]))
+                os.makedirs(os.path.dirname(path), exist_ok=True)
+                with open(path, "w") as f:
+                    f.write(blob)
+                rc, outp = _run_replay(path)
+                os.unlink(path)
+                print("REPLAY-SELFTEST %s %s rc=%s %s" % (o.name, rp.get("kind"), rc, "" if rc == 3 else outp[-200:].replace("\n", " ")))
+                if rc != 3 and not k0:
+                    harness_errors.append("%s: replayer %s claims a reproduction (rc=%s) for a discharged goal: %s" % (o.name, rp.get("kind"), rc, outp[-200:]))
 
     seen = set()
     for k, fl in known_hits:
